@@ -113,6 +113,8 @@ var operands = []string{
 	"[]", "[1, 2]", "[nil]", "{}", `{"a": 1}`, "[]int64{1, 2}", "[]string{}", "map[string]int64{}", "make([]int64, 0, 4)", "make([][]int64, 1)", "make(map[int64]string)", "make(chan int64)", "make(chan int64, 1)",
 	"new(int64)", "new([]int64)", "new(struct{A int64})", "make(struct{A int64, B []string})", "make(*int64)", "make([]*int64, 2)", "make(map[string]*int64)",
 	"l[0]", "l[2]", "pl[0]", "il[0]", "ll[0]", "m.a", "m.b", `m["zz"]`, "st.A", "st.C", "*p", "&i", "&l", "id(i)", "id(l)", "id(nil)", "id(p)", "id(ch)", "id(fn)", "[p][0]", "[ch][0]", "[fn][0]", "[mod][0]", "(true ? tl : nil)", "(nil ?? tm)",
+	// values of every basic type a script can name (unsigned, narrow and float32 ones among them)
+	"make(uint)", "make(uint32)", "make(uint64)", "make(byte)", "make(rune)", "make(int)", "make(int32)", "make(float32)", "make([]byte, 2)", "make([]byte, 2)[0]", "[]uint64{1, 18446744073709551615}[1]", "[]byte{255}[0]", "[]float32{1.5}[0]", "[]int32{-1}[0]", "[]uint{3}", "map[uint64]byte{}", "toByteSlice(\"ab\")[0]", "toRuneSlice(\"ab\")[1]",
 	"func() { return 1 }", "func(a) { return a }", "func(a...) { return a }", "mod.g", "mod.x", "keys", "typeOf", "boom", "boomv", "cb", "each", "arr", "takesInt", "takesStrs", "import(\"strings\")", "import(\"strings\").Repeat",
 }
 
@@ -148,6 +150,11 @@ var templates = []string{
 	"make(type TM, mod)\nsm = make([]TM, 1)\nx = sm[0]\nx", "make(type TM, mod)\nsm = make([]TM, 1)\nsm[0].x", "make(type TM, mod)\nsm = make([]TM, 1)\nsm[0].x = %s", "make(type TM, mod)\nsm = make([]TM, 1)\nvar x, y = sm[0], %s",
 	"make(type TM, mod)\nsm = make([]TM, 1)\n%s(sm[0])", "make(type TM, mod)\nsm = make([]TM, 1)\nfor k in sm { k.x }", "make(type TM, mod)\nmm = map[string]TM{}\nx = mm.k\nmm.k.g(%s)", "make(type TM, mod)\npm = new(TM)\nx = *pm\n(*pm).x",
 	"make(type TM, mod)\nsm = make([]TM, 1)\nx = sm[0]\nmake(x.T)\nnew(x.y.T)", "make(type TM, mod)\nsm = make([]TM, 1)\nx, y = sm[0], sm[0]\nx == y\nx.g(%s)", "make(type TM, mod)\nst2 = make(struct{M TM})\nx = st2.M\nst2.M.x = %s",
+	// unsigned / narrow / float32 values (make(T) of every basic type name, elements of typed slices) in every operator position
+	"make(uint64) < %s", "%s >= make([]byte, 2)[0]", "[]uint64{1}[0] <= %s", "%s > make(uint32)", "make(uint) < make(int32)", "make(byte) >= make(uint64)", "make(float32) < make(uint)", "make(uint64) + %s", "%s - make(byte)", "make(uint32) * %s", "%s / make(uint64)",
+	"%s %% make(uint)", "make(uint64) << %s", "%s >> make(byte)", "make(uint64) & %s", "-make(uint64)", "^make(byte)", "!make(uint32)", "make(uint64) == %s", "%s != make(rune)", "switch make(uint64) { case %s: 1 }", "switch %s { case make(byte): 1 }", "%s in []uint64{1}", "make(uint64) in %s",
+	"make([]int64, make(uint64))", "make(chan int64, make(byte))", "l[make(uint32)]", "l[:make(byte)]", "l[make(uint):]", "for x in make(uint64) { }", "ux = make(uint64)\nux++\nux += %s\nux -= %s\nux", "ub = make([]byte, 2)\nub[0] = %s\nub[0]++\nub[1] += %s\nub", "uf = make(float32)\nuf += %s\nuf < %s",
+	"\"ab\" * make(uint64)", "make(uint64) * \"ab\"", "(make(uint32) ? 1 : 2)", "(make(byte) ?? %s)", "if make(uint64) { 1 }", "for make(uint32) { break }", "toInt(make(uint64)) + toFloat(make(byte))", "takesInt(make(uint64), %s)", "[]int64{make(uint64), %s}", "map[uint64]int64{make(byte): %s}",
 	"try { %s(%s) } catch e { e.Error() }", "try { throw %s } catch e { e = %s }", "module m2 { a = %s }; m2.a(%s)", "x = %s; x.y = %s", "x = %s; x[0] = %s; x",
 }
 
@@ -189,22 +196,34 @@ func genOperand(t *rapid.T, depth int) string {
 		return b.String()
 	}
 	if rapid.IntRange(0, 9).Draw(t, "hot") < 3 {
-		return rapid.SampledFrom(hotOperands).Draw(t, "hotoperand")
+		return pickU(t, "hotoperand", hotOperands)
 	}
-	return rapid.SampledFrom(operands).Draw(t, "operand")
+	return pickU(t, "operand", operands)
 }
 
 // operands that have been at the root of real crashes: typed nils, nil interfaces,
 // pointers, invalid dereferences, huge sizes, structs with interface fields
 var hotOperands = []string{"pl[0]", "il[0]", "n", "nil", "p", "ps", "*p", "&i", "st", "si", "mod", "ch", "uc", "fn", "l", "m", "tl", "tm", "s", "i",
-	"9223372036854775807", "-9223372036854775808", "72057594037927936", "make([]*int64, 2)", "make(map[string]*int64)", "new(struct{A int64})", "[nil]", "id(nil)", "[p][0]", "make(*int64)", "ll[0]", "m.b", "ty", "*ty", "make(type T2, 1)", "make(type T3, l)", "(*ty).t"}
+	"9223372036854775807", "-9223372036854775808", "72057594037927936", "make([]*int64, 2)", "make(map[string]*int64)", "new(struct{A int64})", "[nil]", "id(nil)", "[p][0]", "make(*int64)", "ll[0]", "m.b", "ty", "*ty", "make(type T2, 1)", "make(type T3, l)", "(*ty).t", "make(uint64)", "make([]byte, 2)[0]", "[]uint64{1, 18446744073709551615}[1]", "make(int32)", "make(float32)"}
+
+// pickU draws an element without rapid's bias towards the head of the list (the draw is hashed),
+// so that every template and operand gets its share.
+func pickU(t *rapid.T, label string, xs []string) string {
+	u := rapid.Uint64().Draw(t, label)
+	u ^= u >> 30
+	u *= 0xBF58476D1CE4E5B9
+	u ^= u >> 27
+	u *= 0x94D049BB133111EB
+	u ^= u >> 31
+	return xs[u%uint64(len(xs))]
+}
 
 func genTargeted(t *rapid.T) Case {
 	c := Case{Kind: "targeted"}
 	n := rapid.IntRange(1, 2).Draw(t, "nstmts")
 	var parts []string
 	for i := 0; i < n; i++ {
-		parts = append(parts, c.fill(t, rapid.SampledFrom(templates).Draw(t, "template")))
+		parts = append(parts, c.fill(t, pickU(t, "template", templates)))
 	}
 	c.Src = wild.Prelude + strings.Join(parts, "\n")
 	return c
